@@ -163,6 +163,11 @@ def label_keys(kind, ref, full=True):
                     continue
                 keys.append(('date-slice', slice(a, b)))
         keys += [('date-list', ['2020-01-31', '2020-01-30']), ('date-list', [datetime.date(2020, 2, 1)])]
+        # the same instants in another unit, in an order of their own (what aligning with an index of that unit hands over)
+        dd = DATES if kind == 'date' else DATES_U
+        if n >= 2:
+            keys.append(('date-array-other-unit', np.array(sorted(dd[:n], reverse=True), dtype='datetime64[s]')))
+            keys.append(('date-array-other-unit', np.array([dd[n - 1], dd[0], dd[n - 1]], dtype='datetime64[h]')))
     return keys
 
 
